@@ -155,6 +155,19 @@ static int cmd_verify(void) {
 		KSI_PolicyVerificationResult_free(res);
 		vc.signature = NULL; vc.documentHash = NULL; vc.userPublication = NULL; vc.userPublicationsFile = NULL;
 		KSI_VerificationContext_clean(&vc);
+	} else if (!strcmp(api, "withpolicy") && kv("docin")) {
+		/* document hash and level travel in the caller's context, the explicit arguments are NULL / 0 (the calling pattern of KSI_Signature_parseWithPolicy) */
+		KSI_VerificationContext_init(&vc, c);
+		vc.documentHash = dh; vc.docAggrLevel = kvu("lvl", 0); vc.userPublication = pd; vc.extendingAllowed = (int)kvl("ext", 0);
+		if (kv("pubfile")) vc.userPublicationsFile = pubfiles[kvl("pubfile", 0)];
+		if (!strcmp(kv("docin"), "parse")) {
+			unsigned char *raw = NULL; size_t n = 0; KSI_Signature *s2 = NULL;
+			rc = KSI_Signature_serialize(s, &raw, &n);
+			if (rc == KSI_OK) { rc = KSI_Signature_parseWithPolicy(c, raw, n, pol, &vc, &s2); if (rc == KSI_OK && s2 == NULL) kx_out(" nosig=1"); if (rc != KSI_OK && s2 != NULL) kx_out(" sigonerr=1"); }
+			KSI_Signature_free(s2); KSI_free(raw);
+		} else rc = KSI_Signature_verifyWithPolicy(s, NULL, 0, pol, &vc);
+		vc.documentHash = NULL; vc.userPublication = NULL; vc.userPublicationsFile = NULL;
+		KSI_VerificationContext_clean(&vc);
 	} else if (!strcmp(api, "withpolicy")) {
 		if (pd || kv("pubfile") || kv("ext")) {
 			KSI_VerificationContext_init(&vc, c);
